@@ -462,9 +462,12 @@ class Range(object):
         assert len(other) == 2
         assert other != (None, None)
 
-        lower, upper = other
-        result = self._item_contains(some, lower) or self._item_contains(some, upper)
-        return result
+        some_lower, some_upper = some
+        other_lower, other_upper = other
+        # NOTE: Items overlap unless one of them ends before the other starts; ``None`` means unlimited.
+        some_ends_before_other = (some_upper is not None) and (other_lower is not None) and (some_upper < other_lower)
+        other_ends_before_some = (other_upper is not None) and (some_lower is not None) and (other_upper < some_lower)
+        return not (some_ends_before_other or other_ends_before_some)
 
     def _item_contains(self, item, value):
         assert item is not None
